@@ -1,17 +1,17 @@
 """C13 — enforcement follows type identity, not spelling at the use site.
 Metamorphic correspondence on the real binary: the same IR with the annotated types spelled directly, through an
 import alias, through a type alias declared in a third package, through a local type alias, and parenthesised where Go's
-syntax allows; diagnostics compared by (site id, code) / (using package, type); each rendering also compared with the model."""
+syntax allows, and as a plain identifier under a dot import; diagnostics compared by (site id, code) / (using package, type); each rendering also compared with the model."""
 import concurrent.futures, os
 import lib, worlds, meta
 
-VARIANTS = ["direct", "import-alias", "third-alias", "local-alias", "paren"]
+VARIANTS = ["direct", "import-alias", "third-alias", "local-alias", "paren", "dot"]
 
 
 def run(ctx):
     rep = lib.Report(ctx, "C13")
     n = 30 if ctx.tier != "thorough" else 300
-    rs, base = meta.render_set(ctx, None, VARIANTS, lambda v, i: {"spelling_mode": v}, lambda v, i: {}, n, "c13")
+    rs, base = meta.render_set(ctx, None, VARIANTS, lambda v, i: {"spelling_mode": v, "ctor_names": False}, lambda v, i: {}, n, "c13")
     cfg = (True, [], [])
 
     def one(v):
@@ -21,7 +21,7 @@ def run(ctx):
         rc, err = worlds.skel(ctx, root, dump)
         m = worlds.model_analyze(ctx, dump, cfg, root)
         return v, r, m, rc, err
-    with concurrent.futures.ThreadPoolExecutor(max_workers=5) as ex:
+    with concurrent.futures.ThreadPoolExecutor(max_workers=6) as ex:
         res = {v: (r, m, rc, err) for v, r, m, rc, err in ex.map(one, VARIANTS)}
     found = False
     b_unk, b_key, b_unm = meta.normalise(res["direct"][0]["diags"], rs["direct"][1])
@@ -51,8 +51,8 @@ def run(ctx):
     lib.obligation_gate(rep, ctx, "C13", found)
     rep.cov["evaluations"] = evals
     rep.cov["distinct_nontrivial"] = len(nontrivial)
-    rep.cov["rule"] = ("%d IRs x 5 spellings of the annotated types at every use site (d.T; dd.T with a renamed import; m.AT with the alias declared in a third package; a local alias LT; (d.T) where "
-                       "a parenthesised type is syntactically allowed) - the worlds are generated from the same seed, so they differ in spelling only. Compared as in C12." % n)
+    rep.cov["rule"] = ("%d IRs x 6 spellings of the annotated types at every use site (d.T; dd.T with a renamed import; m.AT with the alias declared in a third package; a local alias LT; (d.T) where "
+                       "a parenthesised type is syntactically allowed; T with a dot import) - the worlds are generated from the same seed, so they differ in spelling only. Compared as in C12." % n)
     rep.cov["diagnostics_per_spelling"] = {v: len(res[v][0]["diags"]) for v in VARIANTS}
     rep.cov["samples"] = [list(x) for x in sorted(b_unk)[:3]] + [list(x) for x in sorted(b_key)[:2]]
     rep.assumptions = ["go/types records identical types/objects for renamed imports and parenthesised types (an input fact, exercised by the runs)",
